@@ -20,10 +20,15 @@ CASE_IMPORTS = "From GV Require Import Prelude.Base Model.Geometry."
 ALLOWED_AXIOMS: list = []
 REFUTED = [
     "C07_atomic_refuted (pinned tree: CellObject.remove_vertices with indices touching no cell raises after the vertices "
-    "were replaced; the same statement is proved for the repaired code as C07_atomic_repaired)",
+    "were replaced; for the repaired code the statement is proved as C07_atomic_repaired (no text data) / "
+    "C07_atomic_repaired_partial)",
     "C07_history_consistent_refuted (pinned tree: a history of valid operations reaches an inconsistent object)",
 ]
 PARTIAL = [
+    "C07_atomic_repaired_partial, C07_history_consistent_repaired_partial (repaired code with per-element text data: under "
+    "copy_args_ok, which excludes exactly the three open text-data findings - text arrays shorter than the element count, "
+    "removals / copies that leave a text child without entries; the unsuffixed theorems C07_atomic_repaired and "
+    "C07_history_consistent_repaired are full for objects and histories without per-element text data)",
     "C07_atomic_as_is_partial, C07_step_consistent_as_is, C07_history_consistent_as_is_partial (pinned tree: atomicity and "
     "consistency hold for every operation whose removal touches a cell and whose object has no value-less vertex/cell "
     "child; missing: exactly the two defects recorded as findings)",
